@@ -203,11 +203,10 @@ def r2_r3_greedy_loop(ctx: Context, rule2="C13.R2", rule3="C13.R3") -> None:
                   "the decision is not reflected on the scratch cluster (later tasks see stale occupancy)")
         if pts:
             es = next((k.value for k in pts[0].keywords if k.arg == "execution_strategy"), pts[0].args[1] if len(pts[0].args) > 1 else None)
-            if es is not None:
-                ctx.check(norm(es) == sv, rule2, f"{g.q}|virtual placement uses the decided strategy", loc(pts[0]), "same strategy", f"virtual placement uses `{norm(es)}`")
-            else:
-                ctx.note(f"{loc(pts[0])}: {cname} places virtually without naming the strategy; WorkerPool.place_task then takes the first fitting "
-                         "strategy of the task in the same order, which is the decided one")
+            ctx.check(es is not None and norm(es) == sv, rule2, f"{g.q}|virtual placement uses the decided strategy", loc(pts[0]), "same strategy",
+                      f"the scratch cluster is debited with `{norm(es) if es is not None else 'whatever WorkerPool.place_task picks (first worker, then first fitting strategy)'}` "
+                      f"while the decision reports `{sv}`: on a multi-worker pool the two differ, later tasks of the same round see wrong "
+                      "occupancy and the returned placements can oversubscribe a worker or starve a task that fits")
         # placed decision content
         placed = [c for c in calls_in(g.loop, "create_task_placement") if any(k.arg == "worker_pool_id" for k in c.keywords)]
         okc = len(placed) == 1
@@ -283,3 +282,5 @@ def run(ctx: Context) -> None:
     ctx.isolate(r1_sort_key)
     ctx.isolate(r2_r3_greedy_loop)
     ctx.isolate(r4_fit_test)
+    from . import c12
+    ctx.isolate(c12.r1_admission, _alias={"C12.R1": "C13.R5"})
